@@ -22,7 +22,7 @@ PROP = dict(
                     "search, copy, NUL-separated arguments, append, ring range) and gcc ASan/UBSan; mpt_memtok, mpt_message_argv "
                     "and mpt_array_message with non-NUL separators are decided differentially only (fragmented == contiguous), so "
                     "a defect that changes both alike is not seen"),
-        legs=[dict(name="c17_msg", src=["c17_msg.c"], libs=["mptcore"], batch=512,
+        legs=[dict(name="c17_msg", memcheck=2000, src=["c17_msg.c"], libs=["mptcore"], batch=512,
                    floors={"mpt_message_read": 1000000, "mpt_message_length": 100000, "mpt_memchr": 200000, "mpt_memrchr": 200000,
                            "mpt_memstr": 100000, "mpt_memrstr": 100000, "mpt_memfcn": 200000, "mpt_memrfcn": 200000,
                            "mpt_memtok": 500000, "mpt_memcpy": 200000, "mpt_message_argv": 500000, "mpt_array_message": 200000,
